@@ -143,7 +143,7 @@ def check_labels(specs, res, dialect='new', via_list=True, max_objects=40):
                     res.bad('duplicate-label', '%s on %s' % (lab, mc.name))
                 shown.add(lab)
         # labels with late letters first (y, z, aa, ...), then the rest
-        for mo in sorted(mc.all_objects(), key=lambda o: (-(o.gen >= 23), o.id, o.gen)):
+        for mo in sorted(mc.all_objects(), key=lambda o: (-(o.gen >= 700), -(o.gen >= 23), o.id, o.gen)):
             if nobj >= max_objects:
                 break
             nobj += 1
@@ -208,6 +208,28 @@ class Labels(Stage):
             res.label(l)
         res.nontrivial = res.counters.get('nontrivial-labels', 0) > 0
         res.sample = dict(lines=[wire.render(m, case.get('dialect', 'new')) for m in case['specs'][:10]], n=len(case['specs']))
+        return res
+
+
+class LongLabels(Stage):
+    """labels of objects deep into a long session (three letters: incarnation 703 is aaa; ids up to 0xfeffffff) as matchers"""
+    name = 'long-session-labels'
+
+    def examples(self, tier):
+        return 6 if tier == 'quick' else 14 * 8
+
+    def gen(self, d, tier):
+        return dict(dialect=d.choice(['new', 'old']), template=histgen.gen_long_template(d))
+
+    def execute(self, case):
+        res = Result()
+        res.evals = 0
+        specs = histgen.expand_long(case['template'])
+        check_labels(specs, res, case.get('dialect', 'new'), via_list=True, max_objects=10)
+        t = case['template']
+        res.nontrivial = t['cycles'] >= 27
+        res.label('incarnations>=703' if t['cycles'] >= 703 else 'incarnations>=27')
+        res.sample = dict(template=t, n=len(specs))
         return res
 
 
@@ -495,9 +517,9 @@ class C14(Prop):
             'incarnations or is in use on >= 2 connections (enumeration chunks all count); sink-names: open/message/close sequences on the '
             'connection-id interface, names distinct and `X:` exact (non-trivial = >= 3 connections with a re-open); labels-in-sessions: scripted sessions in which connections '
             'are selected / deselected while messages stream in and labels are given to filter / breakpoint commands, then `list <label>` is compared with the '
-            'model\'s mention set over that connection\'s own record (non-trivial = >= 2 listings checked after a selection and a label filter); connection-command-labels: 27..1060 connections opened on the connection-id interface, `connection LABEL` + `list` and `list LABEL:` must show exactly that connection\'s messages for sampled labels, the first, the last and any label that reads like a keyword of the connection command (ALL = the 1000th); distinct by SHA-1 of the case.')
+            'model\'s mention set over that connection\'s own record (non-trivial = >= 2 listings checked after a selection and a label filter); long-session-labels: labels of objects in sessions expanded from a template to thousands of messages (incarnation 703 = aaa and beyond) as matchers and through `list`; connection-command-labels: 27..1060 connections opened on the connection-id interface, `connection LABEL` + `list` and `list LABEL:` must show exactly that connection\'s messages for sampled labels, the first, the last and any label that reads like a keyword of the connection command (ALL = the 1000th); distinct by SHA-1 of the case.')
     assumptions = ['reference model of DESIGN appendix B decides which messages are on / mention / create / destroy an object']
-    stages = [Letters(), LettersFar(), Labels(), LabelsInSessions(), ManyConnections(), SinkNames(), ConnectionCommandLabels()]
+    stages = [Letters(), LettersFar(), Labels(), LongLabels(), LabelsInSessions(), ManyConnections(), SinkNames(), ConnectionCommandLabels()]
 
 
 PROP = C14()
